@@ -65,15 +65,8 @@ Fixpoint tks_eqb (a b : list tk) : bool :=
 Definition is_tok (t : tk) (o : option tk) : bool :=
   match o with Some u => tk_eqb t u | None => false end.
 
-(* the tokens at which an expression in a delimited position ends *)
-Definition stop_tok (o : option tk) : bool :=
-  match o with
-  | None => true
-  | Some (KRP | KRBrack | KRBrace | KComma | KColon | KSemi | KEllipsis) => true
-  | Some _ => false
-  end.
-
 Definition is_default (e : ex) : bool := match e with XDefault _ _ _ => true | _ => false end.
+Definition is_nil {A} (l : list A) : bool := match l with [] => true | _ :: _ => false end.
 Definition is_some {A} (o : option A) : bool := match o with Some _ => true | None => false end.
 Definition itea : bytes := [36; 105; 116; 101; 97].
 Definition no_byte (c : N) (s : bytes) : bool := negb (existsb (N.eqb c) s).
@@ -117,6 +110,18 @@ Notation relex := (relex lit_string lit_int lit_float kw_text keywords tmpl_keyw
 Definition lex_stable (ps : list pc) : bool :=
   match relex ps with LexOk ts => tks_eqb ts (toks ps) | _ => false end.
 
+(* the tokens at which an expression in a delimited position ends: the end of
+   the source, a closing or separating token, any token that is not an
+   operator (the semicolon that the lexer adds, the closing braces of a
+   template) *)
+Definition stop_tok (o : option tk) : bool :=
+  match o with
+  | None => true
+  | Some (KRP | KRBrack | KRBrace | KComma | KColon | KSemi | KEllipsis) => true
+  | Some (KSym s) => negb (bytes_eqb s sym_not) && negb (is_some (klookup binary_tokens s))
+  | Some _ => false
+  end.
+
 Definition first_tok (e : ex) : option tk :=
   match pp e with Some ps => hd_error (toks ps) | None => None end.
 
@@ -124,7 +129,7 @@ Definition first_tok (e : ex) : option tk :=
 Definition xun_ok (op : N) : bool :=
   match spell op_string op with
   | Some s =>
-    no_byte 32 s &&
+    negb (is_nil s) && no_byte 32 s &&
     (if bytes_eqb s sym_arrow then op =? op_receive
      else match klookup unary_tokens s with Some u => u =? op | None => false end)
   | None => false
@@ -135,7 +140,7 @@ Definition xbin_ok (op : N) : bool :=
   match spell op_string op, bprec bin_prec op with
   | Some s, Some _ =>
     match split_sp s with
-    | [w] => negb (bytes_eqb w sym_not) &&
+    | [w] => negb (is_nil w) && negb (bytes_eqb w sym_not) &&
              match klookup binary_tokens w with Some b => b =? op | None => false end
     | [w1; w2] => bytes_eqb w1 sym_not && bytes_eqb w2 sym_contains && (op =? op_not_contains)
     | _ => false
@@ -158,8 +163,6 @@ Definition starts_result_o (o : option tk) : bool :=
 
 (* the token after each element of a list printed with separators *)
 Definition sep_next (last : bool) (sep fin : tk) : option tk := Some (if last then fin else sep).
-
-Definition is_nil {A} (l : list A) : bool := match l with [] => true | _ :: _ => false end.
 
 Fixpoint ok (ty el : bool) (e : ex) (nxt : option tk) {struct e} : bool :=
   (* the operand of a postfix form followed by t: not an operator [F1], not a default [F2] *)
@@ -227,7 +230,7 @@ Fixpoint ok (ty el : bool) (e : ex) (nxt : option tk) {struct e} : bool :=
     match t with
     | None => false
     | Some t' => ok true false t' (Some KRP) &&
-                 match first_tok t' with Some (KIdent [95]) => false | _ => true end
+                 match first_tok t' with Some (KIdent a) => negb (bytes_eqb a [95]) | Some (KKw WType) => false | _ => true end
     end
   | XCompLit _ t kvs =>
     negb ty && (expanded || is_nil kvs) &&
@@ -297,24 +300,27 @@ Fixpoint ok (ty el : bool) (e : ex) (nxt : option tk) {struct e} : bool :=
   | XFuncLit _ => false
   end.
 
-(* the expressions of the theorem: the whole source is the printed form, the
-   parser is called as by the statement parser (canBeSwitchGuard = guard) *)
-Definition printable (guard : bool) (e : ex) : bool :=
+(* the expressions of the theorem: the source is the printed form followed by
+   a token nxt at which an expression ends (None: nothing follows), the
+   parser is called as the statement parser calls it (canBeSwitchGuard =
+   guard) *)
+Definition printable (guard : bool) (nxt : option tk) (e : ex) : bool :=
   match pp e with
   | Some ps =>
+    stop_tok nxt &&
     lex_stable ps &&                                                                       (* [F4] *)
     match e with
     | XTypeAssert _ x None =>
       guard && negb (is_operator x) && negb (is_default x) && ok false false x (Some KPeriod)
-    | _ => ok false false e None
+    | _ => ok false false e nxt
     end
   | None => false
   end.
 
 (* the same for a type read with mustBeType *)
-Definition printable_type (e : ex) : bool :=
+Definition printable_type (nxt : option tk) (e : ex) : bool :=
   match pp e with
-  | Some ps => lex_stable ps && ok true false e None
+  | Some ps => lex_stable ps && ok true false e nxt
   | None => false
   end.
 
